@@ -27,6 +27,30 @@ from .sval import (SBytes, SStr, MRef, ORef, Obj, SList, SOpt, Rec, Opaque, ExcV
 from . import sval
 
 
+_SELF_ATTRS = {}
+
+
+def _assigned_on_self(cls, name):
+    """does any method of cls (or of a base class defined in the package) store self.<name>?"""
+    out = False
+    for k in getattr(cls, '__mro__', (cls,)):
+        if k is object:
+            continue
+        if k not in _SELF_ATTRS:
+            names = set()
+            try:
+                import textwrap
+                tree = ast.parse(textwrap.dedent(inspect.getsource(k)))
+                for n in ast.walk(tree):
+                    if isinstance(n, ast.Attribute) and isinstance(n.ctx, ast.Store) and isinstance(n.value, ast.Name) and n.value.id in ('self', 's'):
+                        names.add(n.attr)
+            except (OSError, TypeError, SyntaxError):
+                pass
+            _SELF_ATTRS[k] = names
+        out = out or name in _SELF_ATTRS[k]
+    return out
+
+
 class _Stale:
     def __repr__(self):
         return 'STALE'
@@ -860,6 +884,10 @@ class Interp:
         try:
             raw = inspect.getattr_static(cls, name)
         except AttributeError:
+            if recv is not None and _assigned_on_self(cls, name):
+                # the tree under verification gives its instances this attribute (some method stores self.<name>), the
+                # symbolic world does not know it: the model is closed, the code may be fine - undecided, not an AttributeError
+                raise Unsupported('%s.%s: an attribute the code assigns but the contracts\' world model does not describe' % (classname(cls), name))
             raise PyRaise(ExcVal(AttributeError, tag='%s.%s' % (classname(cls), name)))
         return self.bind_descriptor(raw, recv, klass or cls, name)
 
